@@ -177,7 +177,15 @@ def carrier_risky(recipe):
             for x in r:
                 go(x)
     go(recipe)
-    return "mul" in has and bool(has & {"max", "min"})
+    # truediv / pow / reciprocal normalize to products (x / y -> x * reciprocal(y))
+    return bool(has & {"mul", "truediv", "pow", "reciprocal"}) and bool(has & {"max", "min"})
+
+
+def demax(recipe):
+    """Replace a top-level max/min reduction by an add reduction (keeps the shape, leaves the carrier-sensitive region)."""
+    if recipe[0] == "reduce" and recipe[1] in ("max", "min"):
+        return ("reduce", "add") + recipe[2:]
+    return recipe
 
 
 def to_nonneg(r):
@@ -1025,25 +1033,32 @@ def gen_absent_reduce(rng, k, rot):
     names = list(ctx)
     rng.shuffle(names)
     absent = [at_least2(ctx, n) for n in names[:rng.choice([1, 1, 2])]]
+    if op == "mul":
+        # x ** |absent domain| : keep every intermediate exactly representable (values in {1, 2, -1, 0.5}, power <= 4)
+        absent = absent[:1]
     others = [n for n in names if n not in absent]
     env = {}
 
     def tensor(ns):
         tt = gen_terms.gen_tensor(rng, ctx, "real", names=ns)
-        if op in ("logaddexp", "mul"):
-            tt = tt[:4] + (np.abs(tt[4]) + (1.0 if op == "mul" else 0.0),)
+        if op == "mul":
+            vals = np.array([rng.choice([1.0, 2.0, -1.0, 0.5]) for _ in range(tt[4].size)]).reshape(tt[4].shape)
+            tt = tt[:4] + (vals,)
+        elif op == "logaddexp":
+            tt = tt[:4] + (np.abs(tt[4]),)
         return tt
     if argk == "tensor-other-inputs":
         a = tensor([n for n in others if rng.random() < 0.7] or others[:1])
     elif argk == "scalar-tensor":
         a = tensor([])
     elif argk == "number":
-        a = ("num", float(rng.choice([1, 2, 3])), "real")
+        a = ("num", float(rng.choice([1, 2] if op == "mul" else [1, 2, 3])), "real")
     elif argk == "compound":
-        a = ("binary", rng.choice(["add", "mul"]), tensor(others[:1]), tensor([n for n in others if rng.random() < 0.5]))
+        a = ("binary", "mul" if op == "mul" else rng.choice(["add", "mul"]), tensor(others[:1]),
+             tensor([n for n in others if rng.random() < 0.5]))
     else:
-        a = ("binary", "add", ("var", "x", Real), tensor(others[:1]))
-        env["x"] = rng.choice([0.5, 2.0, 3.0])
+        a = ("binary", "mul" if op == "mul" else "add", ("var", "x", Real), tensor(others[:1]))
+        env["x"] = rng.choice([0.5, 2.0] if op == "mul" else [0.5, 2.0, 3.0])
     present = ()
     if kind == "partly-absent":
         _, free = recipe_wire(a)
@@ -1078,6 +1093,8 @@ def cases(base_seed, n):
         elif m == 2 and (idx // 12) % 2 == 1:
             ctx, recipe, env = gen_absent_reduce(rng, cnt["absent"], rot)
             cnt["absent"] += 1
+            if carrier_risky(recipe):
+                recipe = to_nonneg(recipe)
             out.append((ctx, recipe, "absent-reduce(reduced Variables not among the argument's inputs)", env))
         elif m == 2:
             ctx, recipe, env = gen_seq_lazy(rng)
@@ -1097,6 +1114,8 @@ def cases(base_seed, n):
         elif m == 8:
             ctx, recipe = gen_align_noncomm(rng, cnt["align"], rot)
             cnt["align"] += 1
+            if carrier_risky(recipe):
+                recipe = demax(recipe)
             out.append((ctx, recipe, "align-noncommutative(lazy Align operands of sub/truediv/pow/comparisons)", {}))
         elif m == 3:
             ctx, recipe = gen_subs_grid(rng, cnt["subs"], rot)
